@@ -236,6 +236,55 @@ func ignoreGuards(f *ssa.Function, method string, typArg int) []ignoreGuard {
 	return out
 }
 
+// partiallyGated: b can be reached after the guard's "not ignored" edge but not after its "ignored" edge, although
+// the guard does not dominate b (`if op == eq { if ignored(Y) { return } ... }` followed by the emission of X: when Y
+// is switched off, X is lost for every `==` expression). Not counted: a guard that is itself evaluated only when X
+// is already switched off (`if ignored(X) && ignored(Y) { return }`), and a per-file guard evaluated only when Y is
+// not switched off globally (`if !ignored(Y) && ignoredForFile(f, Y) { return }`: a rule for that file is meant).
+func partiallyGated(g ignoreGuard, b *ssa.BasicBlock, x int64, all []ignoreGuard) bool {
+	if g.kept == nil || g.ignored == nil || g.kept == g.ignored {
+		return false
+	}
+	reachFrom := func(start *ssa.BasicBlock) map[*ssa.BasicBlock]bool {
+		seen := map[*ssa.BasicBlock]bool{}
+		var walk func(x *ssa.BasicBlock)
+		walk = func(x *ssa.BasicBlock) {
+			if seen[x] {
+				return
+			}
+			seen[x] = true
+			for _, s := range x.Succs {
+				walk(s)
+			}
+		}
+		walk(start)
+		return seen
+	}
+	if !reachFrom(g.kept)[b] || reachFrom(g.ignored)[b] {
+		return false
+	}
+	gy, _ := errTypeConst(g.typ)
+	for _, h := range all {
+		if h.call == g.call || h.ignored == nil || h.kept == nil {
+			continue
+		}
+		hy, ok := errTypeConst(h.typ)
+		if !ok {
+			continue
+		}
+		under := func(edge *ssa.BasicBlock) bool {
+			return len(edge.Preds) == 1 && (edge == g.call.Block() || edge.Dominates(g.call.Block()))
+		}
+		if hy == x && under(h.ignored) {
+			return false // evaluated only when X is already off
+		}
+		if hy == gy && under(h.kept) {
+			return false // evaluated only when Y is not off globally: a narrower (per-file) rule
+		}
+	}
+	return true
+}
+
 // dominatedByKept: block b is reached only through the guard's "not ignored" edge.
 func dominatedByKept(g ignoreGuard, b *ssa.BasicBlock) bool {
 	if g.kept == nil || g.kept == g.ignored {
@@ -380,7 +429,7 @@ var ruleCfgG4 = &Rule{
 					own := false
 					for _, g := range guards {
 						y, ok := errTypeConst(g.typ)
-						if !ok || !dominatedByKept(g, b) {
+						if !ok || (!dominatedByKept(g, b) && !(y != x && partiallyGated(g, b, x, guards))) {
 							continue
 						}
 						if y == x {
